@@ -5,6 +5,7 @@ import (
 	"go/constant"
 	"go/types"
 	"math/big"
+	"os"
 	"strings"
 )
 
@@ -272,6 +273,13 @@ func isUnsignedBV(t types.Type) bool {
 // typeKey is a canonical, SMT-identifier-safe name for a Go type.
 func (e *Engine) typeKey(t types.Type) string {
 	t = e.subst(t)
+	if _, isTP := t.(*types.TypeParam); isTP && os.Getenv("GVC_DEBUG_TP") != "" {
+		fmt.Fprintf(os.Stderr, "typeKey of type parameter %s; frames:", t)
+		for f := e.cur; f != nil; f = f.caller {
+			fmt.Fprintf(os.Stderr, " %s(tsubst=%v)", f.fn.Name(), f.tsubst != nil)
+		}
+		fmt.Fprintln(os.Stderr)
+	}
 	s := types.TypeString(t, func(p *types.Package) string { return p.Name() })
 	if k, ok := e.typeKeys[s]; ok {
 		return k
